@@ -7,6 +7,7 @@ def run(ctx, rep):
     regexrules.rule_sibling_interpreters(ctx, rep, "C09-R1")
     regexrules.rule_pipeline_exhaustive(ctx, rep, "C09-R2")
     regexrules.rule_class_predicates(ctx, rep, "C09-R3")
+    regexrules.rule_snapshot_ownership(ctx, rep, "C09-R4")
     rep.undecided += [
         "backtracking priorities, capture reset and empty-iteration semantics for all (pattern, subject) pairs (differential property)",
     ]
